@@ -17,7 +17,7 @@ import os
 
 from .absint import FALSE, NONE, TOP, TRUE, Undecided, exc, heap_key, is_handle, own_names, unbox_deep, val
 from .astutil import FUNC_TYPES, attr_chain, dotted
-from .effects import EffectDomain, exc_info_of, is_generator
+from .effects import DELETED, EffectDomain, exc_info_of, is_generator
 
 CALLABLE_TAGS = ("func", "method", "boundmethod", "bound", "partial", "builtin", "listappend", "attrgetter", "itemgetter", "methodcaller", "classref", "ctorref", "userfn", "setmethod", "decoderfactory", "decodermethod", "strmethod", "dictmethod", "supermethod")
 
@@ -193,6 +193,8 @@ class ObjectDomain(EffectDomain):
     def _eval_class_expr(self, interp, ci, expr, st, fr):
         """Evaluate a class-body expression (tables of constants, attrgetters, partials ...) in the class's module."""
         from .absint import Frame
+        if isinstance(expr, ast.Call) and dotted(expr.func) == "object" and not expr.args and not expr.keywords:
+            return [val(("sym", f"<the object made at line {expr.lineno} of class {ci.name}>"), st)]   # made once, when the class is: the same object at every read
         holder = ast.parse("def _class_body():\n    pass").body[0]
         holder._module = ci.node._module
         holder._parent = ci.node   # names of the class body (helper functions defined there) are in scope, then the module's
@@ -297,7 +299,7 @@ class ObjectDomain(EffectDomain):
             got = self._inst_attr(interp, value, attr, st, fr)
             return got if got is not None else [val(TOP, st)]
         if isinstance(value, tuple) and value[:1] == ("wobj",):
-            if (value[1], attr) in self.lacks:
+            if st.get(f"obj.{value[1]}.{attr}", None) == DELETED or ((value[1], attr) in self.lacks and not st.has(f"obj.{value[1]}.{attr}")):
                 return [exc(("exc", "AttributeError"), st)]
             if attr in self.log_reads and not st.has(f"obj.{value[1]}.{attr}"):
                 # a data attribute of a wrapped object whose reads are observed
@@ -335,6 +337,8 @@ class ObjectDomain(EffectDomain):
                 return self._eval_class_expr(interp, got[0], got[1], st, fr)
         if self.track(key) or key in self.results:
             return [val(("method", attr), st)]
+        if self.closed_private and attr.startswith("__") and not attr.endswith("__"):
+            return [exc(("exc", "AttributeError"), st)]
         return [val(TOP, st)]
 
     _LITERAL_NODES = (ast.Dict, ast.Tuple, ast.List, ast.Set)
@@ -394,7 +398,13 @@ class ObjectDomain(EffectDomain):
         got = self._class_attr_expr(fr.receiver, chain[1])
         if got is not None:
             return self._eval_class_expr(interp, got[0], got[1], st, fr)
+        if self.closed_private and chain[1].startswith("__") and not chain[1].endswith("__"):
+            return [exc(("exc", "AttributeError"), st)]   # a name-mangled attribute nobody assigned
         return None
+
+    # The analysed object was built by its real constructor: a name-mangled attribute (self.__x -- only the class's own
+    # code can assign it) that is neither in the state nor defined by the class does not exist.
+    closed_private = False
 
     def load_attr(self, chain, st, fr):
         if fr.instance is not None and chain and chain[0] == fr.selfname and all(isinstance(c, str) for c in chain):
@@ -1121,6 +1131,45 @@ class ObjectDomain(EffectDomain):
                     out.append(val(NONE, interp.assign(node, r.value[1], r.state, fr)))
                 else:
                     out.extend(interp.eval(node, r.state, fr))
+            if decided:
+                return out
+        if isinstance(f_, ast.Attribute) and f_.attr == "with_traceback" and len(call.args) == 1 and not call.keywords:
+            recv = interp.eval(f_.value, st, fr)
+            if recv and all(r.kind == "exc" or (isinstance(r.value, tuple) and r.value[:1] == ("exc",)) for r in recv):
+                out = []
+                for r0 in recv:
+                    if r0.kind == "exc":
+                        out.append(r0)
+                        continue
+                    for r in interp.eval(call.args[0], r0.state, fr):
+                        out.append(r if r.kind == "exc" else val(r0.value, r.state))   # e.with_traceback(tb) is e
+                return out
+        if d == "delattr" and len(call.args) == 2 and not call.keywords:
+            out = []
+            decided = True
+            for r in interp.eval_list(list(call.args), st, fr):
+                if r.kind == "exc":
+                    out.append(r)
+                    continue
+                base, name = r.value
+                s2 = None
+                if isinstance(name, tuple) and name[:1] == ("const",) and isinstance(name[1], str):
+                    if base == ("self",) or is_inst(base):
+                        key = ("self." if base == ("self",) else f"inst.{base[1]}.") + name[1]
+                        s2 = type(r.state)(frozenset((k, v) for k, v in r.state.items if k != key), r.state.log) if r.state.has(key) else None
+                        if s2 is None:
+                            out.append(exc(("exc", "AttributeError"), r.state))
+                            continue
+                    else:
+                        if isinstance(base, tuple) and base[:1] == ("wobj",) and (r.state.get(f"obj.{base[1]}.{name[1]}", None) == DELETED
+                                                                                   or ((base[1], name[1]) in self.lacks and not r.state.has(f"obj.{base[1]}.{name[1]}"))):
+                            out.append(exc(("exc", "AttributeError"), r.state))
+                            continue
+                        s2 = self.delete_attr_on(base, name[1], r.state)
+                if s2 is None:
+                    decided = False
+                    break
+                out.append(val(NONE, s2))
             if decided:
                 return out
         # codecs incremental decoders, folded on constant bytes: the standard library's own decoding of what was fed so far
